@@ -9,23 +9,36 @@ func vhTokEq(a, b token) bool {
 	return a.typ == b.typ && a.s == b.s && a.n == b.n
 }
 
-//verif:bounds every byte string of length 0..2 (thorough: 0..3): tokenize and Parse return without panic within the loop budget
+//verif:bounds every byte string of length 0..2 (thorough: also every 3-byte ASCII string): tokenize and Parse return without panic within the loop budget
 //verif:unwind 12
-//verif:shards 32
+//verif:shards 56
 func VH_C16_bytes_total() {
-	sh := verifShard(32)
-	n := sh / 8
-	if n > 2+verifTier() {
-		verifReach("end") // quick: lengths 0..2, thorough: 0..3
-		return
-	}
-	s := verifString(n)
-	if n > 0 {
-		// the shard fixes the top three bits of the first byte
-		verifAssume(int(s[0])>>5 == sh%8)
-	} else if sh%8 != 0 {
-		verifReach("end")
-		return
+	sh := verifShard(56)
+	var s string
+	var n int
+	if sh < 24 {
+		// lengths 0..2: the shard fixes the top three bits of the first byte
+		n = sh / 8
+		s = verifString(n)
+		if n > 0 {
+			verifAssume(int(s[0])>>5 == sh%8)
+		} else if sh%8 != 0 {
+			verifReach("end")
+			return
+		}
+	} else {
+		// length 3, thorough tier only: the shard fixes the top five bits
+		if verifTier() == 0 {
+			verifReach("end")
+			return
+		}
+		n = 3
+		s = verifString(n)
+		verifAssume(int(s[0])>>3 == sh-24)
+		// 3-byte strings: ASCII only (all 2^24 byte strings did not finish in 50
+		// minutes on 16 cores; multi-byte runes are covered at lengths <= 2 and by
+		// VH_C16_no_skip)
+		verifAssume(s[0] < 0x80 && s[1] < 0x80 && s[2] < 0x80)
 	}
 	toks, err := tokenize(s)
 	if err == nil {
@@ -253,6 +266,162 @@ func VH_C16_quoted() {
 		verifAssert(ct.Table == `a"b` && len(ct.Columns) == 3 && ct.Columns[0].Name == `c"d` && ct.Columns[1].Name == "e f" && ct.Columns[2].Name == "g`h", "doubled quotes are unescaped")
 		d, _ := ct.Columns[0].Default.(string)
 		verifAssert(d == "it's", "'' in a literal is one quote")
+	}
+	verifReach("end")
+}
+
+// Token level: the grammar's driver and every semantic action, on sequences of
+// tokens the tokenizer can emit (the byte-level harnesses above cannot reach past
+// three bytes; most of the grammar needs more). The sequence is grown one token
+// at a time from a menu of every token kind; a prefix the parser gives up on
+// before its last token is not extended (nothing after the point of the syntax
+// error is ever looked at), so what is explored is every *viable* prefix of the
+// grammar up to the length bound, each extended by every token kind. Finite case
+// split, no solver variables: texts and numbers are fixed ("a", 1, 1.5), the
+// actions do not branch on them.
+var vhTokKinds = [...]int{
+	'(', ')', ',', '+', '-', '~', '*',
+	tBare, tLiteral, tIdentifier, tOperator, tSignedNumber, tFloat,
+	ACTION, AND, ASC, AUTOINCREMENT, CASCADE, CHECK, COLLATE, CONFLICT, CONSTRAINT,
+	CREATE, DEFAULT, DEFERRABLE, DEFERRED, DELETE, DESC, FOREIGN, FROM, GLOB, INDEX,
+	IN, INITIALLY, IS, KEY, LIKE, MATCH, NO, NOT, NULL, ON, OR, PRIMARY, REFERENCES,
+	REGEXP, REPLACE, RESTRICT, ROWID, SELECT, SET, TABLE, UNIQUE, UPDATE, WHERE, WITHOUT,
+}
+
+//verif:bounds every viable token prefix of the grammar of length <= 6 (thorough: <= 8), extended by each of the 56 token kinds the tokenizer can emit (7 punctuation characters, bareword, literal, identifier, operator, integer, float, 43 keywords): yyParse returns without panic within the loop budget, and parsing the same tokens again gives the same result
+//verif:unwind 64
+//verif:shards 56
+func VH_C16_tokens_total() {
+	var toks []token
+	max := 7 + 2*verifTier()
+	for k := 0; k < max; k++ {
+		var c int
+		if k == 0 {
+			c = verifShard(len(vhTokKinds))
+		} else {
+			c = verifChoice(len(vhTokKinds) + 1)
+			if c == len(vhTokKinds) {
+				break // the sequence ends here
+			}
+		}
+		toks = append(toks, token{typ: vhTokKinds[c], s: "a", n: 1, f: 1.5})
+		l := &lexer{tokens: toks}
+		yyParse(l)
+		if l.err != nil {
+			// Was the error raised AT the last token (dead prefix: nothing after it
+			// is ever looked at) or at the end of input (viable prefix)? A probe
+			// token appended to the sequence is read only in the second case.
+			probe := &lexer{tokens: append(append([]token(nil), toks...), token{typ: ',', s: ","})}
+			yyParse(probe)
+			if len(probe.tokens) > 0 {
+				verifReach("end")
+				return
+			}
+		}
+		if k == max-1 {
+			l2 := &lexer{tokens: toks}
+			yyParse(l2)
+			verifAssert((l.err == nil) == (l2.err == nil), "same tokens, same verdict")
+		}
+	}
+	verifReach("end")
+}
+
+// Within one column definition the constraints may come in any order, and what
+// each of them reports must not depend on its neighbours in the list (the
+// harness above fixes one order and one DEFAULT spelling).
+//verif:bounds column a followed by a plain column b: every ordered selection of 0..3 distinct constraint kinds out of {NOT NULL | NULL, UNIQUE, DEFAULT (5 | NULL | 'x' | -2), COLLATE nocase, PRIMARY KEY, CHECK (a)} - each kind's reported attribute equals what that constraint alone reports, the neighbour column reports nothing
+//verif:shards 11
+func VH_C16_constraint_order() {
+	const nk = 6
+	used := [nk]bool{}
+	text := "CREATE TABLE t (a INT"
+	wantNull, wantUnique, wantPK, wantColl := true, false, false, ""
+	var wantDef interface{}
+	nchecks := 0
+	// (kind, spelling) of the first constraint by shard; shard 10: no constraint
+	first := [10][2]int{{0, 0}, {1, 0}, {2, 0}, {3, 0}, {4, 0}, {5, 0}, {0, 1}, {2, 1}, {2, 2}, {2, 3}}
+	sh := verifShard(11)
+	for step := 0; step < 3 && sh < 10; step++ {
+		var k, variant int
+		if step == 0 {
+			k, variant = first[sh][0], first[sh][1]
+		} else {
+			k = verifChoice(nk + 1)
+			if k == nk {
+				break
+			}
+			if k == 0 {
+				variant = verifChoice(2)
+			} else if k == 2 {
+				variant = verifChoice(4)
+			}
+		}
+		if used[k] {
+			verifAssume(false)
+		}
+		used[k] = true
+		switch k {
+		case 0:
+			if variant == 0 {
+				text += " NOT NULL"
+				wantNull = false
+			} else {
+				text += " NULL"
+			}
+		case 1:
+			text += " UNIQUE"
+			wantUnique = true
+		case 2:
+			switch variant {
+			case 0:
+				text += " DEFAULT 5"
+				wantDef = int64(5)
+			case 1:
+				text += " DEFAULT NULL"
+			case 2:
+				text += " DEFAULT 'x'"
+				wantDef = "x"
+			default:
+				text += " DEFAULT -2"
+				wantDef = int64(-2)
+			}
+		case 3:
+			text += " COLLATE nocase"
+			wantColl = "nocase"
+		case 4:
+			text += " PRIMARY KEY"
+			wantPK = true
+		case 5:
+			text += " CHECK (a)"
+			nchecks++
+		}
+	}
+	text += ", b)"
+	verifDebugf("sql=%s", text)
+	st, err := Parse(text)
+	verifAssert(err == nil, "valid statement parses")
+	ct, ok := st.(CreateTableStmt)
+	verifAssert(ok && len(ct.Columns) == 2, "column count")
+	if ok && len(ct.Columns) == 2 {
+		a, b := ct.Columns[0], ct.Columns[1]
+		verifAssert(a.Name == "a" && a.Type == "INT", "name and type")
+		verifAssert(a.Null == wantNull, "NOT NULL / NULL is reported whatever surrounds it")
+		verifAssert(a.Unique == wantUnique, "UNIQUE is reported whatever surrounds it")
+		verifAssert(a.PrimaryKey == wantPK, "PRIMARY KEY is reported whatever surrounds it")
+		verifAssert(a.Collate == wantColl, "COLLATE is reported whatever surrounds it")
+		verifAssert(len(a.Checks) == nchecks, "CHECK is reported whatever surrounds it")
+		switch w := wantDef.(type) {
+		case nil:
+			verifAssert(a.Default == nil, "no DEFAULT / DEFAULT NULL reports nil whatever surrounds it")
+		case int64:
+			d, isInt := a.Default.(int64)
+			verifAssert(isInt && d == w, "DEFAULT <int> is reported whatever surrounds it")
+		case string:
+			d, isStr := a.Default.(string)
+			verifAssert(isStr && d == w, "DEFAULT <text> is reported whatever surrounds it")
+		}
+		verifAssert(b.Name == "b" && b.Type == "" && b.Null && !b.Unique && !b.PrimaryKey && b.Collate == "" && b.Default == nil && len(b.Checks) == 0, "the neighbour column reports nothing")
 	}
 	verifReach("end")
 }
